@@ -363,6 +363,20 @@ func (st *ServerStream) readerRemoveUnsafe(ss *ServerSession) {
 	}
 }
 
+// multicastParams returns the address of the multicast writer of a media,
+// or false if the stream has no multicast writers (anymore).
+func (st *ServerStream) multicastParams(medi *description.Media) (net.IP, int, int, bool) {
+	st.mutex.RLock()
+	defer st.mutex.RUnlock()
+
+	sm := st.medias[medi]
+	if sm == nil || sm.multicastWriter == nil {
+		return nil, 0, 0, false
+	}
+
+	return sm.multicastWriter.ip, sm.multicastWriter.rtpPort, sm.multicastWriter.rtcpPort, true
+}
+
 func (st *ServerStream) readerSetActive(ss *ServerSession) {
 	st.mutex.Lock()
 	defer st.mutex.Unlock()
